@@ -1376,37 +1376,27 @@ func (hv *Hash) privateDetailedType() px.Type {
 			return hv.detailedType
 		}
 
-		structEntries := make([]*StructElement, top)
+		// A Struct type can be used when all keys are non empty strings
+		allNames := true
+		keyTypes := make([]px.Type, top)
+		valueTypes := make([]px.Type, top)
 		for idx, entry := range hv.entries {
-			if ks, ok := entry.key.(stringValue); ok {
-				structEntries[idx] = NewStructElement(ks, DefaultAnyType())
-				continue
-			}
-
-			// Struct type cannot be used unless all keys are strings
-			hv.detailedType = hv.privateReducedType()
-			return hv.detailedType
-		}
-		hv.detailedType = NewStructType(structEntries)
-
-		for _, entry := range hv.entries {
 			if sv, ok := entry.key.(stringValue); !ok || len(string(sv)) == 0 {
-				firstEntry := hv.entries[0]
-				commonKeyType := px.DetailedValueType(firstEntry.key)
-				commonValueType := px.DetailedValueType(firstEntry.value)
-				for idx := 1; idx < top; idx++ {
-					entry := hv.entries[idx]
-					commonKeyType = commonType(commonKeyType, px.DetailedValueType(entry.key))
-					commonValueType = commonType(commonValueType, px.DetailedValueType(entry.value))
-				}
-				sz := int64(len(hv.entries))
-				hv.detailedType = NewHashType(commonKeyType, commonValueType, NewIntegerType(sz, sz))
-				return hv.detailedType
+				allNames = false
 			}
+			keyTypes[idx] = px.DetailedValueType(entry.key)
+			valueTypes[idx] = px.DetailedValueType(entry.value)
 		}
-
-		for idx, entry := range hv.entries {
-			structEntries[idx] = NewStructElement(entry.key, px.DetailedValueType(entry.value))
+		if allNames {
+			structEntries := make([]*StructElement, top)
+			for idx, entry := range hv.entries {
+				structEntries[idx] = NewStructElement(entry.key, valueTypes[idx])
+			}
+			hv.detailedType = NewStructType(structEntries)
+		} else {
+			// the exact key and value types: the variants of the detailed types of the keys and of the values
+			sz := int64(top)
+			hv.detailedType = NewHashType(NewVariantType(UniqueTypes(keyTypes)...), NewVariantType(UniqueTypes(valueTypes)...), NewIntegerType(sz, sz))
 		}
 	}
 	return hv.detailedType
